@@ -217,6 +217,9 @@ func (m *Machine) runNoPanic(fr *frame, tag string, f Value) {
 	if tp == nil {
 		return
 	}
+	if m.hr.haveViolation("panic:nopanic:" + tag) {
+		panic(pathEnd{"panic-violation"})
+	}
 	assign, blocks, _, ok := m.model(nil, nil)
 	if !ok {
 		panic(engineErr{"path condition unsatisfiable at panic"})
